@@ -448,6 +448,15 @@ func c02(c *wk.Ctx) {
 		j := jobs[i]
 		wk.RunBatch(c, "c02cases", j.start, j.end, c02extra{Chunked: j.chunked}, 30*time.Minute, onDeath)
 	})
+	nseq := c.N(200, 4000)
+	wk.RunBatch(c, "c02seq", 6000000, 6000000+nseq, nil, 20*time.Minute, func(d wk.Death) {
+		if d.Result.TimedOut {
+			r.Inconcl("C02 sequence child watchdog")
+			return
+		}
+		r.Violationf("C02|route=rump-bigkey|outcome=process-aborted", json.RawMessage(d.Desc), "utils.RestoreBigkey ended the process (exit %d) although every key it was asked to write was free or to be rewritten: %s", d.Result.Exit, firstPanicLine(d.Result.Stderr))
+	})
+	r.Floor("route:rump-bigkey-sequences", 150)
 	for _, rt := range []string{"plain", "bigkey", "quicklist", "fallback", "chunked"} {
 		r.Floor("route:"+rt, 3)
 	}
